@@ -14,10 +14,10 @@ type Intrinsic func(e *Exec, st *State, fn *ssa.Function, args []Value, depth in
 
 var intrinsics = map[string]Intrinsic{}
 
-func (e *Exec) lookupIntrinsic(fn *ssa.Function) Intrinsic {
+func (e *Exec) lookupIntrinsic(st *State, fn *ssa.Function) Intrinsic {
 	name := fn.String()
-	if e.Overrides != nil {
-		if in, ok := e.Overrides[name]; ok {
+	if st != nil && st.Overrides != nil {
+		if in, ok := st.Overrides[name]; ok {
 			return in
 		}
 	}
@@ -184,7 +184,22 @@ func (e *Exec) bitLen(x *Term) *Term {
 	if v, ok := e.defKey[key]; ok {
 		return v[0]
 	}
-	l := ts.FreshBounded("bitlen", new(big.Int), nil)
+	var lLo, lHi *big.Int
+	lLo = new(big.Int)
+	if x.Lo != nil && x.Hi != nil {
+		// |x| <= max(|lo|,|hi|)
+		m := new(big.Int).Abs(x.Lo)
+		if h := new(big.Int).Abs(x.Hi); h.Cmp(m) > 0 {
+			m = h
+		}
+		lHi = big.NewInt(int64(m.BitLen()))
+		if x.Lo.Sign() > 0 {
+			lLo = big.NewInt(int64(x.Lo.BitLen()))
+		} else if x.Hi.Sign() < 0 {
+			lLo = big.NewInt(int64(x.Hi.BitLen()))
+		}
+	}
+	l := ts.FreshBounded("bitlen", lLo, lHi)
 	ax := e.absTerm(x)
 	ths := DefaultBitLenThresholds
 	if e.BitLenDense > 0 {
